@@ -119,4 +119,99 @@ def proxy_contracts(w, PROP):
         raises={'AnyException': {'no_reference_no_finalizer': 'g.conn_fails and g.finalizers == 0 and '
                                                               'has(self._idset, self._id) == old(has(self._idset, self._id))'}},
     )
-    return [decref, incref]
+    # ---- one call through a proxy ----------------------------------------------------------------------------------
+    g.fields.update({'cm_sent': IntS, 'cm_req_ok': BoolS, 'cm_kind': IntS, 'cm_body': ValS, 'cm_token': ref('TokenP'),
+                     'cm_proxies': IntS, 'cm_proxy_ok': BoolS, 'cm_proxy': ValS})
+    w.classes['Proxy'].fields.update({'_serializer': ValS})
+    w.classes['MgrP'].fields.update({'_registry': ValS})
+
+    def cm_send(ex, args, kw):
+        from pyvc.core import box
+        me = ex.root.scopes[0]['self']
+        sc = ex.root.scopes[0]
+        m = args[1]
+        ok = z3.BoolVal(False)
+        if isinstance(m, STup) and len(m.items) == 4:
+            ok = z3.And(m.items[0].e == ex.path.read_field(me, '_id').e, box(m.items[1]) == box(sc['methodname']),
+                        box(m.items[2]) == box(sc['args']), box(m.items[3]) == box(sc['kwds']))
+        gset(ex, 'cm_req_ok', SV(BoolS, ok))
+        gset(ex, 'cm_sent', SV(IntS, gget(ex, 'cm_sent').e + 1))
+        return SNone()
+
+    def cm_recv(ex, args, kw):
+        from pyvc.core import SStr
+        k = ex.path.choose(6)
+        gset(ex, 'cm_kind', mk_int(k))
+        if k == 1:
+            tok = SRef(ref('TokenP'), ex.path.new_id('TokenP'))
+            gset(ex, 'cm_token', tok)
+            return STup([SStr('#PROXY'), STup([SV(ValS, z3.Const('exposed_of_result', Val)), tok])])
+        body = SV(ValS, z3.Const(fresh_name('answer_body'), Val))
+        gset(ex, 'cm_body', body)
+        return STup([SStr(['#RETURN', '', '#ERROR', '#TRACEBACK', '#UNSERIALIZABLE', '#OTHER'][k]), body])
+    w.cls('ConnP', fields={}, methods={'send': cm_send, 'recv': cm_recv})
+    w.classes['Tls'].fields['connection'] = ref('ConnP')
+
+    def cm_call(ex, args, kw):
+        me = ex.root.scopes[0]['self']
+        fn = args[0]
+        if ex.path.decide(fn.e == ex.path.read_field(me, '_Client').e):
+            return client(ex, args, kw)
+        # proxytype(token, serializer, manager=..., authkey=..., exposed=...): the proxy for the returned object (its own
+        # constructor takes the proxy's reference: _incref, under contract above)
+        tok = args[1]
+        ok = z3.BoolVal(False)
+        if 'authkey' in kw and isinstance(tok, SRef):
+            ok = z3.And(tok.id == gget(ex, 'cm_token').id,
+                        ex.path.read_field(tok, 'address').e ==
+                        ex.path.read_field(ex.path.read_field(me, '_token'), 'address').e,
+                        kw['authkey'].e == ex.path.read_field(me, '_authkey').e)
+        gset(ex, 'cm_proxy_ok', SV(BoolS, ok))
+        gset(ex, 'cm_proxies', SV(IntS, gget(ex, 'cm_proxies').e + 1))
+        p = SV(ValS, z3.Const(fresh_name('result_proxy'), Val))
+        gset(ex, 'cm_proxy', p)
+        return p
+
+    def type_of(ex, args, kw):
+        from pyvc.core import VExternal
+        return VExternal('builtins.bytes') if ex.path.choose(2) == 1 else VExternal('builtins.str')
+
+    def registry_entry(ex, args, kw):
+        """self._manager._registry[typeid][-1]: the proxy type registered for the returned object's type -- not the
+        connection factory"""
+        v = SV(ValS, z3.Const(fresh_name('registry_entry'), Val))
+        ex.path.assume(v.e != ex.path.read_field(ex.root.scopes[0]['self'], '_Client').e)
+        return v
+    callmethod = Contract(
+        'managers.BaseProxy._callmethod', prop=PROP,
+        params={'self': ref('Proxy'), 'methodname': ValS, 'args': ValS, 'kwds': ValS},
+        inline=['managers.convert_to_error'],
+        externals={'<callable>': cm_call, 'managers.dispatch': ext_dispatch, 'util.debug': lambda ex, a, k: SNone(),
+                   'managers.util.debug': lambda ex, a, k: SNone(), 'builtins.type': type_of,
+                   'getitem<opaque>': registry_entry},
+        requires={'fresh': fresh + ' and g.cm_sent == 0 and g.cm_proxies == 0',
+                  'objects': 'allocated(self._token) and allocated(self._tls) and allocated(self._tls.connection) and '
+                             'self._manager is not None and allocated(val(self._manager)) and self._id == self._token.id',
+                  'this_thread_owns_a_connection': 'self._tls.has_connection'},
+        modifies=mod + ['g.cm_sent', 'g.cm_req_ok', 'g.cm_kind', 'g.cm_body', 'g.cm_token', 'g.cm_proxies', 'g.cm_proxy_ok',
+                        'g.cm_proxy', 'TokenP.address'],
+        returns=ValS,
+        ensures={
+            'one_request_for_this_object_this_method_these_arguments': 'g.cm_sent == 1 and g.cm_req_ok',
+            'a_value_is_handed_on_unchanged': 'implies(g.cm_kind == 0, result == g.cm_body and g.conns == 0 and g.reqs == 0)',
+            # a result that comes back as an object of its own: a proxy for *that* object, and the reference the server took
+            # for it while it was in transit is given back -- for that object, not for the one the method was called on
+            'a_returned_object_gets_its_own_proxy': 'implies(g.cm_kind == 1, g.cm_proxies == 1 and g.cm_proxy_ok and '
+                                                    'result == g.cm_proxy)',
+            'the_transit_reference_of_the_returned_object_is_given_back':
+                'implies(g.cm_kind == 1, g.conns == 1 and g.conn_addr == self._token.address and g.conn_key == self._authkey '
+                'and g.reqs == 1 and g.req_kind == 2 and g.req_ident == g.cm_token.id)',
+            'only_values_and_proxies_are_returned': 'g.cm_kind == 0 or g.cm_kind == 1',
+        },
+        raises={'<opaque>': {'the_exception_the_referent_raised': 'g.cm_kind == 2'},
+                'RemoteError': {'server_side_failure': 'g.cm_kind == 3 or g.cm_kind == 4'},
+                'AssertionError': {'server_side_failure_with_a_malformed_text': 'g.cm_kind == 3 or g.cm_kind == 4'},
+                'ValueError': {'unknown_kind': 'g.cm_kind == 5'},
+                'AnyException': {'giving_the_transit_reference_back_failed': 'g.cm_kind == 1 and g.conn_fails'}},
+    )
+    return [decref, incref, callmethod]
